@@ -156,6 +156,8 @@ theorem finalizePost_true (c : Cfg) (q : Req → Bool) : ∀ (post : List Item) 
     intro log out resp hq
     have hqi : q it.req = true := hq it (by simp)
     simp only [finalizePost]
+    split
+    · simp
     cases hcm : commit it log with
     | none => simp
     | some p =>
@@ -188,6 +190,8 @@ theorem finalizePost_false (c : Cfg) (q : Req → Bool) : ∀ (post : List Item)
     intro log out resp hq
     have hqi : q it.req = false := hq it (by simp)
     simp only [finalizePost]
+    split
+    · simp
     cases hcm : commit it log with
     | none => simp
     | some p =>
@@ -330,7 +334,9 @@ theorem tick_inv (c : Cfg) (s : State) (h : Inv c s) : Inv c (tick c s) := by
   simp only
   split
   · exact h1
-  · exact drainTop_inv c _ (dispatch_inv c _ (tickDelays_inv c _ (tickPipes_inv c _ h1)))
+  · split
+    · exact tickDelays_inv c _ (tickPipes_inv c _ h1)
+    · exact drainTop_inv c _ (dispatch_inv c _ (tickDelays_inv c _ (tickPipes_inv c _ h1)))
 
 theorem deliver_inv (c : Cfg) (s : State) (kind : Kind) (addr len : Nat) (data : List Nat) (mask : Option (List Bool))
     (h : Inv c s) : Inv c (deliver c s kind addr len data mask) := by
